@@ -45,7 +45,8 @@ RULE = (
     "event delivered and >=6 deliveries; distinct = distinct per-entity history digests"
 )
 STATE_MEASURE = "distinct (partitions, window/latency ratio bucket, windows bucket, cross events bucket, idle-gap seen, mode) tuples"
-REAL = ["happysimulator.parallel.ParallelSimulation / WindowedCoordinator / make_event_router / validate_partitions",
+REAL = ["happysimulator.components.server.server.Server / QueuedResource (as a never-queueing stage inside partitions)",
+        "happysimulator.parallel.ParallelSimulation / WindowedCoordinator / make_event_router / validate_partitions",
         "happysimulator.core.simulation.Simulation._run_window/_execute_until", "happysimulator.core.event_heap.EventHeap"]
 STUBS = ["ThreadPoolExecutor/as_completed replaced in the two parallel modules by a seeded serial executor or "
          "baton-passing real threads (the *choice* of who runs is the harness's)", "script entities (harness)",
@@ -63,7 +64,7 @@ EXPECTED_PROBES = ["probe.cross_event_delivered", "probe.event_on_window_boundar
                    "probe.window_eq_min_latency", "probe.pingpong", "probe.independent_partitions", "probe.threads_mode",
                    "probe.daemon_events_with_end_time", "probe.nonzero_start_time", "probe.end_given_as_duration",
                    "probe.outage_dropped_a_delivery", "probe.future_parked_across_windows", "probe.link_declared_twice",
-                   "probe.decoy_model_constructed", "probe.source_inside_partition", "probe.partition_with_trace_recorder", "probe.cross_event_retracted_by_sender"]
+                   "probe.decoy_model_constructed", "probe.source_inside_partition", "probe.partition_with_trace_recorder", "probe.cross_event_retracted_by_sender", "probe.composite_entity_with_undeclared_inner_part", "probe.library_server_inside_linked_partition"]
 SHRINK_SKIP = ("n_kinds",)
 
 LAT_NS = [1_000_000, 100_000_000, 700_000_000, 1_000_000_000]
@@ -174,8 +175,11 @@ def gen(rng, tier):
             sources.append({"ent": rng.randrange(n_ent), "every_w": rng.choice([0.5, 1, 1, 2.5, 3])})
     dup_links = [k for k in sorted(links) if rng.random() < 0.1]      # the same directed pair declared twice
     decoy = rng.choice(["before", "after"]) if rng.random() < 0.15 else None
+    # composite entities: the declared entity passes its work to an undeclared internal part (0 / 1 ns / half a window later)
+    composite = {str(e): rng.choice([0, 0, 1, w_ns // 2, ["server", 0], ["server", 1_000_000], ["server", w_ns // 2 + 1]])
+                 for e in range(n_ent) if rng.random() < 0.12}
     traced = [p for p in range(n_parts) if rng.random() < 0.08]      # partitions with their own trace recorder
-    return {"dup_links": dup_links, "decoy": decoy, "sources": sources, "traced_parts": traced,
+    return {"dup_links": dup_links, "decoy": decoy, "sources": sources, "traced_parts": traced, "composite": composite,
             "parts": parts, "n_kinds": n_kinds, "links": links, "window": window, "handlers": handlers,
             "initial": initial, "end": end, "start": start, "use_duration": use_duration, "outages": outages, "mode": mode,
             "sched_seed": rng.randrange(2**31), "workers": rng.randint(1, n_parts)}
@@ -185,14 +189,54 @@ def gen(rng, tier):
 # model
 # --------------------------------------------------------------------------
 
+class _Helper(Entity):
+    """Internal part of a composite entity (like the queue/driver/worker inside the library's QueuedResource): it is not
+    declared to the simulation or to any partition; its owner hands the clock on and routes its work through it."""
+
+    def __init__(self, owner):
+        super().__init__(f"{owner.name}.inner")
+        self._owner = owner
+
+    def handle_event(self, event):
+        return self._owner._handle(event)
+
+
 class PEntity(Entity):
     def __init__(self, idx, world):
         super().__init__(f"E{idx}")
         self.idx = idx
         self._w = world
         self.hist: list[tuple] = []
+        comp = world.sc.get("composite", {}).get(str(idx))
+        self._inner = _Helper(self) if comp is not None else None
+        self._server = None
+        if isinstance(comp, list):
+            # the library's own composite: a Server (QueuedResource: queue + driver + worker inside) that never queues
+            # (huge concurrency) and hands the request to the internal part after a constant service time
+            from happysimulator.components.server.server import Server
+            from happysimulator.distributions.constant import ConstantLatency
+            self._server = Server(f"E{idx}.srv", concurrency=1_000_000, service_time=ConstantLatency(comp[1] / 1e9),
+                                  downstream=self._inner)
+            comp = 0
+        self._inner_delay = comp or 0
+
+    def set_clock(self, clock):
+        super().set_clock(clock)
+        if self._inner is not None:
+            self._inner.set_clock(clock)
+        if self._server is not None:
+            self._server.set_clock(clock)
 
     def handle_event(self, event):
+        if self._server is not None:
+            return [Event(time=self.now, event_type=event.event_type, target=self._server, daemon=event.daemon)]
+        if self._inner is not None:
+            # composite: the work is done by the internal part, `_inner_delay` ns later
+            return [Event(time=Instant(self.now.nanoseconds + self._inner_delay), event_type=event.event_type,
+                          target=self._inner, daemon=event.daemon)]
+        return self._handle(event)
+
+    def _handle(self, event):
         now = self.now.nanoseconds
         if now != event.time.nanoseconds:
             self._w.problems.append(("clock-ne-event-time", f"{self.name}: clock {now} vs event {event.time.nanoseconds}"))
@@ -333,6 +377,10 @@ def _validate(sc):
         raise InvalidScenario("no initial events")
     if sc.get("start", 0) < 0:
         raise InvalidScenario("negative start")
+    for k, d in sc.get("composite", {}).items():
+        dd = d[1] if isinstance(d, list) else d
+        if not (0 <= int(k) < n_ent) or dd < 0 or (isinstance(d, list) and d[0] != "server"):
+            raise InvalidScenario("bad composite")
     for so in sc.get("sources", []):
         if not (0 <= so["ent"] < n_ent) or so["every_w"] < 0.25 or sc.get("end") is None:
             raise InvalidScenario("bad source (or no explicit end)")
@@ -700,6 +748,8 @@ def run(sc):
         "probe.outage_dropped_a_delivery": int(bool(sc.get("outages")) and _outage_effective(sc, seq)),
         "probe.future_parked_across_windows": int(seq.fut_cross_window > 0),
         "probe.cross_event_retracted_by_sender": int(seq.retracted > 0 and cross > 0),
+        "probe.composite_entity_with_undeclared_inner_part": int(bool(sc.get("composite")) and cross > 0),
+        "probe.library_server_inside_linked_partition": int(any(isinstance(v, list) for v in sc.get("composite", {}).values()) and cross > 0),
         "probe.source_inside_partition": int(bool(sc.get("sources"))),
         "probe.partition_with_trace_recorder": int(bool(sc.get("traced_parts")) and cross > 0),
         "probe.link_declared_twice": int(bool(sc.get("dup_links")) and cross > 0),
